@@ -89,7 +89,7 @@ access(all) contract T {
   }
   access(all) fun pass(_ r: @{N}): @{N} { return <- r }
   access(all) view fun d(_ r: &{N}?): String { if let x = r { return x.desc() }; return "-" }
-  access(all) view fun dArr(_ a: &[{N}]): String { if a.length == 0 { return "-" }; return a[0].desc() }
+  access(all) view fun first(_ a: &[{N}]): &{N}? { if a.length == 0 { return nil }; return a[0] }
   access(all) fun w(_ r: &{N}?, _ pfx: String): [String] { if let x = r { return x.walk(pfx) }; return [] }
 }`
 
